@@ -1477,6 +1477,7 @@ func c08Judge(rt *rapid.T, rec *verifx.Recorder, r *c08Run, caseStart uint64, ca
 			flag("conflict-although-every-verification-matches", extra, "T%d: every verification hash of entry @%d matches the replay state, Commit returned %v", t.ID, e.Index, op.err)
 		case actualCommit && !av:
 			unsat++ // a blind write's conservative hash, or a hash always-verify cannot satisfy; nothing observed changed
+			rec.Class("unsatisfied-verification-in-committed-entry:"+strings.SplitN(why, " ", 2)[0], 1)
 		}
 		if actualCommit {
 			commitsSeen++
